@@ -12,6 +12,7 @@ use core::fmt;
 use core::marker::PhantomData;
 use core::cmp::max;
 use vstd::std_specs::cmp::{PartialEqSpecImpl, PartialEqSpec};
+use vstd::std_specs::iter::IteratorSpec;
 verus! {
 global size_of usize == 8;
 
